@@ -212,4 +212,22 @@ def extend (cfg : Cfg) (ext : Ext) (s : Schema) (h : Heap) : Heap × Schema :=
   (h3, { types := types, dirs := dirs, query := q, mutation := m, subscription := su,
          dres := if cfg.extSchemaDres then s.dres else none })
 
+
+/-- the ORDER of the `types` dict of `extend_schema`'s result. `extend_schema` ends in
+    `Schema(types=[extend_type(t) for t in schema.types.values()] + [the types the document defines], query_type=…, …)`, and
+    `Schema.__init__` registers, after the specified scalars, the types in the order a DEPTH-FIRST walk from that list (then
+    the root operation types) first meets them (`_register_types`: a type, then its union members / interfaces, then field by
+    field the field's type and its argument types). `T = r.types` is the registry `extend` computed (same entries). -/
+def extendOrder (s : Schema) (newNames : List String) (h : Heap) (r : Schema) : List (String × Addr) :=
+  let starts := (s.types.filterMap fun e => lookup r.types e.1) ++ newNames.filterMap (lookup r.types) ++ rootAddrs r
+  let walked := (buildTypeMap h (reachFuel h starts) starts).filter fun e => !isProtected e.1
+  let ordered := walked.filterMap fun e => (lookup r.types e.1).map fun a => (e.1, a)
+  ((r.types.filter fun e => isProtected e.1) ++ ordered ++ r.types).foldl
+    (fun reg e => if (lookup reg e.1).isSome then reg else reg ++ [e]) []
+
+/-- `extend_schema` with the `types` dict in the order of the code (same heap, same entries, same directives and roots) -/
+def extendO (cfg : Cfg) (ext : Ext) (s : Schema) (h : Heap) : Heap × Schema :=
+  let r := extend cfg ext s h
+  (r.1, { r.2 with types := extendOrder s (ext.newTypes.map (·.1)) r.1 r.2 })
+
 end PyGql.Heap
